@@ -32,8 +32,9 @@ Import ListNotations.
 
 (* StartF: a start() whose bind() fails (port taken by a foreign socket): the except branch closes the
    socket, the lock is released by the with block, the call raises *)
-Inductive op := Start | Stop | StartF.
-Inductive cpc := Idle | St_chk | St_chkF | St_spawn | St_setrun | St_rel
+(* StartT: a start() whose Thread.start() raises after bind() has succeeded (the OS refuses a new thread) *)
+Inductive op := Start | Stop | StartF | StartT.
+Inductive cpc := Idle | St_chk | St_chkF | St_chkT | St_spawnT | St_spawn | St_setrun | St_rel
                | Sp_chk | Sp_rel1 | Sp_join | Sp_clear | Sp_acq2 | Sp_reset | Sp_rel2.
 Inductive mpc := MNone | M_acq | M_chk | M_recv | M_close | MEnded.
 Inductive sk := SNone | SOpen | SClosed.
@@ -43,10 +44,11 @@ Record variants := {
   v_close : bool;       (* _run closes the socket in its finally block *)
   v_release : bool;     (* stop() releases the lock before joining *)
   v_chkrun : bool;      (* start() returns early when already running *)
-  v_reset : bool        (* stop() resets shutdown_requested at the end *)
+  v_reset : bool;       (* stop() resets shutdown_requested at the end *)
+  v_trycovers : bool    (* thread creation lies inside the try whose except closes the bound socket *)
 }.
 Definition cur : variants :=
-  {| v_join := true; v_close := true; v_release := true; v_chkrun := true; v_reset := true |}.
+  {| v_join := true; v_close := true; v_release := true; v_chkrun := true; v_reset := true; v_trycovers := true |}.
 
 Record glob := {
   running : bool; shreq : bool; lock : lk;
@@ -85,6 +87,7 @@ Section V.
         | Some Start => if lock_free g then Some (set_lock g LCaller, St_chk, true) else None
         | Some Stop => if lock_free g then Some (set_lock g LCaller, Sp_chk, true) else None
         | Some StartF => if lock_free g then Some (set_lock g LCaller, St_chkF, true) else None
+        | Some StartT => if lock_free g then Some (set_lock g LCaller, St_chkT, true) else None
         end
     | St_chk =>
         if v_chkrun v && running g then Some (set_lock g LFree, Idle, false)
@@ -92,6 +95,11 @@ Section V.
     | St_chkF =>
         if v_chkrun v && running g then Some (set_lock g LFree, Idle, false)
         else Some (set_lock (set_sock g SClosed) LFree, Idle, false)      (* socket(); bind() raises; close(); raise *)
+    | St_chkT =>
+        if v_chkrun v && running g then Some (set_lock g LFree, Idle, false)
+        else Some (set_sock g SOpen, St_spawnT, false)
+    | St_spawnT =>                         (* Thread.start() raises: except closes the socket (if covered); raise *)
+        Some (set_lock (if v_trycovers v then set_sock g SClosed else g) LFree, Idle, false)
     | St_spawn =>
         let g1 := if mt_live (mt g) then set_err g else g in
         Some (set_mt (set_mref g1 true) M_acq, St_setrun, false)
